@@ -139,6 +139,24 @@ def tokenize (s : String) : Option (List Tok) :=
   | some (toks, _) => some toks
   | none => none
 
+/-- does this token end an operand (so that a following `-` is the binary operator)? -/
+def endsOperand : Tok → Bool
+  | .num _ | .str _ | .field _ | .var _ | .fmt _ => true
+  | .ident s => !(["and", "or", "if", "then", "elif", "else", "try", "catch", "reduce", "foreach", "as", "def", "label", "not_a_kw"].contains s) || s == "end"
+  | .punct s => s == ")" || s == "]" || s == "}" || s == "?" || s == "." || s == ".."
+
+/-- succinctly's lexer reads `-` directly followed by a number as one negative literal where a new
+operand may start (`-1 * "a"` is `(-1) * "a"`, jq: `-(1 * "a")`); mirrored on the token list
+(top level only; interpolations keep jq's reading). -/
+def foldNegTokens (prev : Option Tok) : List Tok → List Tok
+  | .punct "-" :: .num n :: rest =>
+    if (match prev with | some t => endsOperand t | none => false) then
+      .punct "-" :: foldNegTokens (some (.punct "-")) (.num n :: rest)
+    else if n.toList.all isDigit then .num ("-" ++ n) :: foldNegTokens (some (.num n)) rest
+    else .punct "-" :: foldNegTokens (some (.punct "-")) (.num n :: rest)
+  | t :: rest => t :: foldNegTokens (some t) rest
+  | [] => []
+
 /-! ### parser -/
 
 abbrev P (α : Type) := Option (α × List Tok)
@@ -183,7 +201,7 @@ def mkBin (op : String) (a b : Expr) : Expr :=
   | "//" => .alt a b
   | "=" => .call "_assign" [a, b]
   | "|=" => .call "_modify" [a, b]
-  | "//=" => .bind b (.var "__tmp") (.call "_modify" [a, .alt .identity (.var "__tmp")])
+  | "//=" => .bind b (.var "__tmp") (.call "_modify_alt" [a, .var "__tmp"])
   | "or" => .or_ a b
   | "and" => .and_ a b
   | op =>
@@ -588,10 +606,11 @@ def pObjEntries (fuel : Nat) (ts : List Tok) (acc : List (Expr × Expr)) : P Exp
     | _ => none
 end
 
-def parseProgram (s : String) : Option Expr :=
+def parseProgram (s : String) (foldNeg : Bool := false) : Option Expr :=
   match tokenize s with
   | none => none
-  | some toks =>
+  | some toks0 =>
+    let toks := if foldNeg then foldNegTokens none toks0 else toks0
     match pPipe (toks.length * 4 + 50) toks with
     | some (e, []) => some e
     | _ => none
